@@ -15,6 +15,17 @@ package engine
 //@   && en.cfg.OutputSize == old(en.cfg.OutputSize) && en.cfg.Root == old(en.cfg.Root) && en.initd == old(en.initd) && en.first == old(en.first)
 
 // End of bytecode: stop, and remember the exit value when there is output to deliver (C20).
+// Finish saves the session through the persister. Only an engine that went
+// through its first-time setup has a state attached to the persister
+// (ensurePersist); before that there is nothing to save and Save would
+// dereference a nil state (C08).
+//@ func (*DefaultEngine).Finish
+//@   serves C08
+//@   requires en != nil && en.rs != nil
+// interface assumption established by ensurePersist (assumed contract, cbor outside reach)
+//@   premise en.initd && en.pe != nil ==> en.pe.State != nil && en.pe.Memory != nil
+//@   modifies everything
+
 //@ func (*DefaultEngine).setCode
 //@   serves C20
 //@   requires en != nil && en.st != nil && state.flagsOk(en.st) && vm.memOk(en.ca)
